@@ -704,6 +704,18 @@ pub fn anchors() -> Vec<Ty> {
     v.push(Ty::Array(b(prim(U16)), 5));
     v.push(Ty::Array(b(Ty::Bool), 4));
     v.push(Ty::Array(b(sized_struct), 2));
+    // arrays whose element is zero-sized (unit, empty array, field-less struct)
+    v.push(Ty::Array(b(Ty::Unit), 3));
+    v.push(Ty::Array(b(Ty::Array(b(prim(U16)), 0)), 2));
+    let zst = sstruct("AZst", vec![Ty::Unit, Ty::Array(b(prim(U32)), 0)], true, false, true);
+    v.push(sstruct(
+        "AZstArr",
+        vec![prim(U8), Ty::Array(b(Ty::Unit), 2), Ty::Array(b(Ty::Array(b(prim(U16)), 0)), 3), Ty::Array(b(zst.clone()), 2), Ty::Bool],
+        true,
+        false,
+        true,
+    ));
+    v.push(sstruct("AZstArrTail", vec![Ty::Array(b(zst), 3), fvec(prim(U8), L::U8)], false, false, true));
 
     let mut seen = std::collections::HashSet::new();
     v.retain(|t| seen.insert(t.rust()));
